@@ -53,7 +53,9 @@ def _setup(h, hard, corr, with_calls=True):
     h.ctx.assume(z3.ForAll([x], z3.Implies(z3.And(x >= 0, x < C.n), z3.substitute(wt >= 0, (C.u, x)))))
     h.requires("weights_non_negative", wt >= 0)
     attrs = dict(B=B, T=h.real("T"), hard_threshold=hard, national_summary_correlation=corr, divided_error_B_1=e1, divided_error_B_2=e2, aggregate_pred_margin=V(pm, (C, ONE)), called_contests=V(called, (C, ONE)) if with_calls else None, stop_model_call=V(stop, (C, ONE)) if with_calls else None)
-    self = h.obj(BEM, **attrs)
+    from contracts.common import init_defaults
+
+    self = h.obj(BEM, **{**init_defaults(BEM), **attrs})
     reg = {}
     h.contracts[f"{BEM}._get_quantiles"] = C06.quantiles_contract(reg)
     ndict = h.int("n_dict")
@@ -129,6 +131,34 @@ def _summary(hard, corr, name, none=False):
             h.ensures("threshold_mode.all_three_within_base_and_total_weight", z3.And(lo_b <= lower.t, lower.t <= pred.t, pred.t <= upper.t, upper.t <= hi_b))
 
     return summary
+
+
+@unit("C08", "summary.second_call_with_other_weights", fns=[f"{BEM}.get_national_summary_estimates"])
+def summary_twice(h):
+    """'depends only on the contests': the summary is asked twice on ONE model object with two different weight dictionaries
+    (first a count of contests won, then electoral votes): the second answer is base + the SECOND dictionary's weights of
+    the contests with a positive margin (threshold mode)"""
+    from pyvc.theory_np import round_half_even_t
+
+    self, C, D, d, ndict, s = _setup(h, True, False)
+    h.requires("right_size", ndict.t == C.n)
+    alpha = h.real("alpha")
+    h.requires("alpha_open", 0 < alpha, alpha < 1)
+    wt2 = z3.Function("weight_second_call", z3.IntSort(), z3.RealSort())(C.u)
+    h.requires("second_weights_non_negative", wt2 >= 0)
+    d2 = SymDict(C, ndict.t, wt2)
+    base1, base2 = h.real("base_first_call"), h.real("base_second_call")
+    rp = lambda ev: {"target": "verif_replays:national_summary_two_calls_replay", "args": [], "check": "result['exc'] is None and result['ok']"}  # noqa: E731
+    h.default_replay = rp
+    k1, r1 = h.call_method(self, "get_national_summary_estimates", d, base1, alpha)
+    if k1 == "raise":
+        return h.fail("first_call.no_raise", f"raised {r1}", replay=rp)
+    k2, r2 = h.call_method(self, "get_national_summary_estimates", d2, base2, alpha)
+    if k2 == "raise":
+        return h.fail("second_call.no_raise", f"raised {r2}", replay=rp)
+    pred2 = r2["margin"][0]
+    win2, _ = sums.formal_sum_dom(h.ctx, C, z3.BoolVal(True), wt2 * z3.If(s["pm"] > 0, 1, 0))
+    h.ensures("second_call.pred_is_base_plus_the_second_dictionarys_weights_of_contests_with_positive_margin", pred2.t == z3.ToReal(round_half_even_t((win2 + base2.t) * 100)) / 100, replay=rp)
 
 
 for _hard, _corr, _nm in ((True, True, "threshold.correlated"), (True, False, "threshold.independent"), (False, True, "sigmoid.correlated"), (False, False, "sigmoid.independent")):
